@@ -7,6 +7,13 @@ import json, os, shutil, sys, collections
 out = '/verif/mutation'
 eq = json.load(open(os.path.join(out, 'equivalent.json')))
 recs = {}
+# results of earlier runs (their scratch directories are gone) are kept; a mutant that is run again replaces its record
+prev = os.path.join(out, 'results.jsonl')
+if os.path.exists(prev):
+    for line in open(prev):
+        r = json.loads(line)
+        r['_dir'] = os.path.join(out, 'survivors')
+        recs[r['id']] = r
 for d in sys.argv[1:]:
     p = os.path.join(d, 'results.jsonl')
     if not os.path.exists(p):
@@ -26,8 +33,9 @@ with open(os.path.join(out, 'results.jsonl'), 'w') as f:
         if r['status'] == 'SURVIVED':
             r['reason'] = eq.get(mid, '')
             src = os.path.join(d, mid.replace(':', '_') + '.diff')
-            if os.path.exists(src):
-                shutil.copy(src, os.path.join(out, 'survivors', os.path.basename(src)))
+            dst = os.path.join(out, 'survivors', os.path.basename(src))
+            if os.path.exists(src) and os.path.abspath(src) != os.path.abspath(dst):
+                shutil.copy(src, dst)
             if not r['reason']:
                 bad += 1
                 print('UNEXPLAINED', mid, '|', r.get('original', '')[:80], '=>', r.get('mutated', '')[:80])
